@@ -51,6 +51,11 @@ CLAIMS = {
          "and key functions / into / scalar via one argument (R2); that where/filter keep the item iff as_bool(result), via/map collect the result, every/some short-circuit with the right constants, reduce threads the accumulator from args[2] (R3); "
          "and that equivalent forms account call depth alike (R4: two recorded known findings - the built-in forms add depth the operator forms do not).",
          BASE_NOTE, "DESIGN.md §4 C13"),
+ "C15": ("sibling agreement and shape oracles by operation signature over the aggregate arms of BuiltInFunction::call",
+         "Exhaustive static decision of: in each of min/max/avg/sum/prod/median the result depends on the arguments only through one Vec<f64> built the same way in all six arms - the elements of the single list argument, the single number, or all arguments (R1: the 'one list or separate arguments' clause); "
+         "min and max are mirror images (R2); the reduction written in each arm and in percentile is the documented formula - fold from the proper infinity, sum, product, sum/len, middle order statistic(s) of the ascending total_cmp sort, nearest-rank index - with an error on the empty vector (R3, a shape oracle). "
+         "The numerical laws themselves (rounding, permutation invariance, monotonicity) quantify over runtime values and are not decided.",
+         BASE_NOTE, "DESIGN.md §4 C15"),
  "C17": ("exact-rational lint of the literal unit table + MIR dominance / who-may-call on units::convert",
          "Exhaustive static decision, for every row of the literal unit catalogue, of: identifier uniqueness (R1), metric/binary prefix "
          "ratios in exact rationals (R2/R2b), positive literal coefficients (R3), temperature maps composing to the identity symbolically (R4), "
